@@ -17,19 +17,32 @@ PID = 'C13'
 
 
 def universes(tier):
+    # multi-character labels: CPython shares one object per one-character string, which would hide `is` for `==`
     if tier == 'quick':
-        return ['a', 'b'], ['x', 'y'], ['n'], ['q']
+        return ['ob', 'oa'], ['py', 'px'], ['on'], ['pq']
     if tier == 'quick3':     # a few three-name states in the quick tier (order effects need >= 3 names)
-        return ['a', 'b', 'c'], ['x', 'y', 'z'], ['n'], ['q']
-    return ['a', 'b', 'c'], ['x', 'y', 'z'], ['n', 'm'], ['q', 'r']
+        return ['ob', 'oa', 'oc'], ['py', 'px', 'pz'], ['on'], ['pq']
+    return ['ob', 'oa', 'oc'], ['py', 'px', 'pz'], ['on', 'om'], ['pq', 'pr']
+
+
+def cp(x):
+    """an equal but distinct object for every label inside an argument (labels parsed from a file or built at run time
+    are never the very objects stored in the definition)"""
+    if isinstance(x, str):
+        return ''.join(list(x))
+    if isinstance(x, tuple):
+        return tuple(cp(y) for y in x)
+    if isinstance(x, list):
+        return [cp(y) for y in x]
+    return x
 
 
 def quick3_states():
     """(object state index, property state indexes) over the 3x3 universe used by the quick tier"""
     UO, UP, _, _ = universes('quick3')
     os_, ps_ = defs.ordered_subsets(UO), defs.ordered_subsets(UP)
-    want_o = [['a', 'b', 'c'], ['c', 'a', 'b']]
-    want_p = [['x', 'y', 'z'], ['z', 'x', 'y'], ['y', 'x']]
+    want_o = [UO, [UO[2], UO[0], UO[1]]]
+    want_p = [UP, [UP[2], UP[0], UP[1]], [UP[1], UP[0]]]
     return [os_.index(o) for o in want_o], [ps_.index(p) for p in want_p]
 
 
@@ -134,9 +147,10 @@ def unit_ops(args, prefix=(), max_depth=None):
             for name, a in instances(group, O, P, UO, UP, FO, FP, tier):
                 nruns += 1
 
-                def body(name=name, a=a):
+                def body(name=name, a0=a):
                     cx = core.ctx()
-                    d, m = eng.mk(O, P, 'd')
+                    a = cp(a0)
+                    d, m = eng.mk(cp(O), cp(P), 'd')
                     C = dict(m)
                     out = {'cex': [], 'queries': 0}
                     other = None
